@@ -195,6 +195,7 @@ def main(argv=None):
         "verdict": verdict,
         "observed": {k: int(v) for k, v in sorted(counters.items())},
         "shards": nshards,
+        "shard_wall_s": [round(d.get("wall_s", 0.0), 1) for d in dumps],
         "shard_problems": problems,
         "inconclusive_reasons": notes,
         "known_findings_observed": {fid: len(rec["hits"]) for fid, rec in known.items()},
